@@ -59,6 +59,7 @@ type ScanCfg struct {
 
 type CheckCfg struct {
 	Scan        *ScanCfg      `json:"scan"`
+	Load        []string      `json:"load"` // extra package patterns to load (whole-program queries such as vs.Implementors)
 	Property    string        `json:"property"`
 	Harnesses   []*HarnessCfg `json:"harnesses"`
 	Assumptions []string      `json:"assumptions"`
@@ -169,6 +170,11 @@ func RunCheck(o RunOpts, propID string) int {
 			if !pkgSet["./"+p] {
 				patterns = append(patterns, "./"+p)
 			}
+		}
+	}
+	for _, p := range cc.Load {
+		if !pkgSet[p] {
+			patterns = append(patterns, p)
 		}
 	}
 	patterns = append(patterns, "./vsupport")
